@@ -911,3 +911,87 @@ def archipelago_ctor_unit(u: Unit):
             else:
                 u.oblige(p, "archipelago.ctor.no_seed_stays_none", isinstance(f.get("pygmo_seed"), VNone), {}, ARCHI_CTOR_REPLAY)
         u.cover(f"archipelago.ctor.cover[{seed}]", ps, lambda p: p.kind == "return")
+
+
+# ---- the tree _apply_parameters returns has the nodes extract_data_3d reads ---------------------------------------------------------------
+LAYOUT_REPLAY = lambda w: {"code": """
+import numpy as np, pandas as pd, warnings, verif_probes as VP
+from pyxel.calibration.fitting_datatree import ModelFittingDataTree
+import pyxel.calibration.archipelago_datatree as AD
+from pyxel.exposure import Readout
+from pyxel.pipelines import DetectionPipeline, ModelFunction, Processor
+warnings.simplefilter('ignore')
+class P(ModelFittingDataTree):
+    def __init__(self):
+        self._variables = []; self.readout = Readout(times=[1.0]); self.pipeline_seed = None
+proc = Processor(detector=VP.detector(rows=2, cols=3), pipeline=DetectionPipeline(photon_collection=[ModelFunction(func='verif_probes.writer', name='w',
+                 arguments={'photon': 3.0, 'pixel_add': 5.0, 'signal': 0.5, 'image': 7})]))
+tree = P()._apply_parameters(processor=proc, parameter=np.array([]))
+VIOLATED, DETAIL = False, 'the simulated data returned for the champions can be evaluated and holds the re-simulated buckets'
+try:
+    df = pd.DataFrame([{'island': 0, 'id_processor': 0, 'data_tree': tree}])
+    ds = AD.extract_data_3d(df_results=df, rows=2, cols=3, times=1, readout_times=np.array([1.0])).compute()
+    got = {b: float(np.asarray(ds['simulated_' + b].values).ravel()[0]) for b in ('photon', 'pixel', 'signal', 'image')}
+    if got != {'photon': 3.0, 'pixel': 5.0, 'signal': 0.5, 'image': 7.0}:
+        VIOLATED, DETAIL = True, f'simulated data of the re-simulation: {got}'
+except Exception as e:
+    VIOLATED, DETAIL = True, f'the simulated data cannot be evaluated: {type(e).__name__}: {e} (result tree of _apply_parameters has the groups {list(tree.groups)})'
+""", "expect": "extract_data_3d can read every bucket from the tree that _apply_parameters returns"}
+
+
+def layout_unit(u: Unit):
+    """ModelFittingDataTree._apply_parameters followed by extract_data_3d: the exposure of the re-simulation is run with a layout flag
+    F (`with_inherited_coords`); with F the five buckets are the nodes bucket/<name> of the result tree, without it <name> (C03 layout
+    obligations). Every node extract_data_3d reads from the tree of a row must be one of them, else the simulated data that the
+    calibration returns cannot be evaluated."""
+    fa = u.fn(f"{FD}::ModelFittingDataTree._apply_parameters")
+    fx = u.fn(f"{AD}::extract_data_3d")
+    pci = u.cls(f"{FD}::ModelFittingDataTree")
+    cfg = Cfg("real")
+    boundary.install(cfg, prefixes=("xarray.", "dask.", "tqdm.", "pandas."))
+    rec = u.track({})
+    rq = "pyxel/exposure/exposure.py::run_pipeline"
+    cfg.contracts[rq] = Contract(rq, lambda ex, args, kwargs, fr, rec=rec: (rec.update(run_kw=dict(kwargs)), VOpaque("xr", None, {"label": "result_tree"}))[1], "C02/C03: one exposure, result tree in the requested layout")
+    uq = f"{FD}::ModelFittingDataTree.update_processor"
+    cfg.contracts[uq] = Contract(uq, lambda ex, args, kwargs, fr: VOpaque("xr", None, {"label": "new_processor"}), "C10.update.*")
+
+    def setup(ex, rec=rec):
+        rec.clear()
+        me = ex.st.alloc(HObj(pci, {"readout": VOpaque("xr", None, {"label": "readout"}), "pipeline_seed": VInt(z3.Int("pipeline_seed")), "_with_inherited_coords": VBool(z3.Bool("inherited"))}))
+        return [me], {"processor": VOpaque("xr", None, {"label": "processor"}), "parameter": VOpaque("xr", None, {"label": "parameter"})}
+    ps = u.paths(fa, setup, cfg, label="_apply_parameters")
+    flags = []
+    for p in ps:
+        if p.kind != "return":
+            u.oblige(p, "resimulation.layout.apply_returns", False, {"exc": p.exc_name()}, LAYOUT_REPLAY)
+            continue
+        f = rec.get("run_kw", {}).get("with_inherited_coords")
+        flags.append((p, f))
+    # the nodes extract_data_3d reads
+    rec2 = {}
+    cfg2 = _groupby_cfg(u, rec2, 2, n_rows=1)
+    cfg2.lib_overrides[("isinstance", "xr")] = lambda ex, v, libs, clss: VBool(True)
+    ps2 = u.paths(fx, lambda ex: ([], {"df_results": VOpaque("xr", None, {"label": "df_results"}), "rows": VInt(z3.Int("rows")), "cols": VInt(z3.Int("cols")), "times": VInt(z3.Int("times")),
+                                       "readout_times": VOpaque("xr", None, {"label": "readout_times"})}), cfg2, label="extract_data_3d[one row]")
+    keys = set()
+    for p in ps2:
+        if p.kind != "return":
+            continue
+        for e in p.st.events:
+            if e[0] == "lib_call" and e[1] == "dask.array.from_delayed" and e[2]:
+                t = term(p.ex, e[2][0])
+                m = re.search(r"\['data_tree'\]((?:\['[^']+'\])+)", t)
+                if m:
+                    keys.add("/".join(re.findall(r"\['([^']+)'\]", m.group(1))).strip("/"))
+    if not flags or not keys:
+        u.undecide("resimulation.layout.result_nodes_exist", fa.qualname, f"could not determine the layout flag ({len(flags)} paths) or the nodes read ({sorted(keys)})")
+        return
+    buckets = ("photon", "charge", "pixel", "signal", "image")
+    for p, f in flags:
+        if not isinstance(f, VBool):
+            u.undecide("resimulation.layout.result_nodes_exist", fa.qualname, f"layout flag of the re-simulation: {f!r}")
+            continue
+        hier = z_bool(f.v)
+        goal = z3.And(*[z3.If(hier, zb(k.startswith("bucket/") and k.split("/", 1)[1] in buckets), zb(k in buckets)) for k in sorted(keys)])
+        u.oblige(p, "resimulation.layout.result_nodes_exist", goal, {"nodes read by extract_data_3d": str(sorted(keys)), "layout flag of the re-simulation": str(f.v)}, LAYOUT_REPLAY)
+    u.cover("resimulation.layout.cover", ps, lambda p: p.kind == "return")
